@@ -8,7 +8,9 @@
 //! (lazy loading, MissingServerState, ServerStateCreation), re-stated over real JSON values and
 //! whole request sequences: every request ends with `finalize`, the next one presents the cookie
 //! the previous one produced.
-use pavex_session::config::{MissingServerState, ServerStateCreation, TtlExtensionThreshold, TtlExtensionTrigger};
+use pavex::cookie::config::{CryptoAlgorithm, CryptoRule};
+use pavex::cookie::{Key, Processor, ProcessorConfig, ResponseCookies, SameSite};
+use pavex_session::config::{MissingServerState, ServerStateCreation, SessionCookieKind, TtlExtensionThreshold, TtlExtensionTrigger};
 use pavex_session::store::{SessionRecordRef, SessionStorageBackend};
 use pavex_session::{IncomingSession, Session, SessionConfig, SessionId, SessionStore};
 use pavex_session_memory_store::InMemorySessionStore;
@@ -101,6 +103,29 @@ async fn run(script: &Value) -> Result<(), Fail> {
     }
     let allow = cfg.state.missing_server_state == MissingServerState::Allow;
     let never_skip = cfg.state.server_state_creation == ServerStateCreation::NeverSkip;
+    // optional: session cookie configuration and the middleware path (C12)
+    if let Some(c) = script.get("cookie").filter(|c| c.is_object()) {
+        if let Some(n) = c["name"].as_str() { cfg.cookie.name = n.to_string(); }
+        cfg.cookie.domain = c["domain"].as_str().map(|s| s.to_string());
+        cfg.cookie.path = c["path"].as_str().map(|s| s.to_string());
+        cfg.cookie.secure = c["secure"].as_bool().unwrap_or(true);
+        cfg.cookie.http_only = c["http_only"].as_bool().unwrap_or(true);
+        cfg.cookie.same_site = match c["same_site"].as_str() { Some("strict") => Some(SameSite::Strict), Some("lax") => Some(SameSite::Lax), Some("none") => Some(SameSite::None), _ => None };
+        cfg.cookie.kind = if c["kind"] == "session" { SessionCookieKind::Session } else { SessionCookieKind::Persistent };
+    }
+    let middleware: Option<(bool, bool)> = script.get("middleware").filter(|m| m.is_object()).map(|m| (m["encrypts"].as_bool().unwrap_or(false), m["signs"].as_bool().unwrap_or(false)));
+    let processor: Option<Processor> = middleware.map(|(enc, sign)| {
+        let mut pc = ProcessorConfig::default();
+        if enc || sign {
+            pc.crypto_rules.push(CryptoRule {
+                cookie_names: vec![cfg.cookie.name.clone()],
+                algorithm: if enc { CryptoAlgorithm::Encryption } else { CryptoAlgorithm::Signing },
+                key: Key::generate(),
+                fallbacks: vec![],
+            });
+        }
+        pc.into()
+    });
 
     let backend = InMemorySessionStore::new();
     let store = SessionStore::new(backend.clone());
@@ -236,7 +261,48 @@ async fn run(script: &Value) -> Result<(), Fail> {
                 }
                 "sync" | "finalize" => {
                     let is_final = name == "finalize";
-                    let outcome = if is_final {
+                    let client_non_empty = !m.invalidated && !m.client.is_empty();
+                    let outcome = if is_final && processor.is_some() && ri == 0 {
+                        // C12: the real middleware, a real Processor with the requested crypto rule
+                        let (enc, sign) = middleware.unwrap();
+                        let will_sign = sign && !enc;
+                        let session = std::mem::replace(&mut s, Session::new(&store, &cfg, None));
+                        let mut jar = ResponseCookies::new();
+                        let r = pavex_session::finalize_session(pavex::Response::ok(), &mut jar, processor.as_ref().unwrap(), session).await;
+                        let attached: Vec<_> = jar.iter().cloned().collect();
+                        match r {
+                            Ok(_) => {
+                                check!(attached.len() <= 1, "{at}: more than one cookie attached");
+                                if let Some(c) = attached.first() {
+                                    check!(enc || will_sign, "{at}: a session cookie was attached although the processor neither signs nor encrypts it");
+                                    check!(!client_non_empty || enc, "{at}: client-side state travels in a cookie that is not encrypted");
+                                    check!(c.name() == cfg.cookie.name, "{at}: cookie name {:?} differs from the configured one", c.name());
+                                    check!(c.domain() == cfg.cookie.domain.as_deref(), "{at}: cookie domain {:?} differs from the configured {:?}", c.domain(), cfg.cookie.domain);
+                                    check!(c.path() == cfg.cookie.path.as_deref(), "{at}: cookie path {:?} differs from the configured {:?}", c.path(), cfg.cookie.path);
+                                    if !c.value().is_empty() {
+                                        check!(c.same_site() == cfg.cookie.same_site, "{at}: SameSite differs from the configured one");
+                                        check!(c.secure() == if cfg.cookie.secure { Some(true) } else { None }, "{at}: Secure differs from the configured one");
+                                        check!(c.http_only() == if cfg.cookie.http_only { Some(true) } else { None }, "{at}: HttpOnly differs from the configured one");
+                                        let persistent = cfg.cookie.kind == SessionCookieKind::Persistent;
+                                        check!(c.max_age().is_some() == persistent, "{at}: max-age present = {}, cookie kind persistent = {persistent}", c.max_age().is_some());
+                                    }
+                                }
+                                Ok(attached.first().cloned())
+                            }
+                            Err(e) => {
+                                check!(attached.is_empty(), "{at}: the request failed ({e:?}) but a session cookie was attached anyway");
+                                let es = format!("{e:?}");
+                                if es.starts_with("CryptoRequired") {
+                                    check!(!enc && !will_sign, "{at}: CryptoRequired although the cookie would have been protected");
+                                    return Ok(());
+                                } else if es.starts_with("EncryptionRequired") {
+                                    check!(client_non_empty && !enc, "{at}: EncryptionRequired although the cookie would be encrypted or carries no client state");
+                                    return Ok(());
+                                }
+                                Err(es)
+                            }
+                        }
+                    } else if is_final {
                         s.finalize().await.map_err(|e| format!("{e:?}"))
                     } else {
                         s.sync().await.map(|_| None).map_err(|e| format!("{e:?}"))
